@@ -364,6 +364,55 @@ func genLoggerFacts(r *Repo) (string, error) {
 			}
 		}
 	}
+	// what the requests served through one installed Logger share: every variable declared in LoggerWithHandler outside the
+	// per-request function, by the callee of its initialiser (today only the slog.Logger itself). A buffer or counter
+	// declared there is written by concurrent requests.
+	var shared []string
+	var scan func(list []ast.Stmt)
+	scan = func(list []ast.Stmt) {
+		for _, st := range list {
+			ast.Inspect(st, func(n ast.Node) bool {
+				if fl, ok := n.(*ast.FuncLit); ok {
+					if fl == inner {
+						return false
+					}
+					return true
+				}
+				switch x := n.(type) {
+				case *ast.AssignStmt:
+					if x.Tok == token.DEFINE {
+						for i := range x.Lhs {
+							kind := "expr"
+							if i < len(x.Rhs) {
+								switch rh := x.Rhs[i].(type) {
+								case *ast.CallExpr:
+									kind = r.Text(rh.Fun)
+								case *ast.FuncLit:
+									continue
+								}
+							}
+							shared = append(shared, kind)
+						}
+					}
+				case *ast.ValueSpec:
+					for i := range x.Names {
+						kind := "zero"
+						if i < len(x.Values) {
+							kind = "expr"
+							if c, ok := x.Values[i].(*ast.CallExpr); ok {
+								kind = r.Text(c.Fun)
+							}
+						}
+						shared = append(shared, kind)
+					}
+				}
+				return true
+			})
+		}
+	}
+	scan(lw.Body.List)
+	sort.Strings(shared)
+	fmt.Fprintf(&sb, "/-- callee of the initialiser of every variable shared by the requests of one Logger -/\ndef loggerSharedState : List String := %s\n", leanStrList(shared))
 	fmt.Fprintf(&sb, "def loggerNextCalls : Nat := %d\n", nextCalls)
 	fmt.Fprintf(&sb, "def loggerNextTopLevel : Bool := %v\n", nextTop)
 	fmt.Fprintf(&sb, "def loggerLogCalls : Nat := %d\n", logCalls)
